@@ -21,8 +21,9 @@
 (***************************************************************************)
 EXTENDS Placement
 
-VARIABLES members, peers, f
-dvars == <<ring, kpos, rf, members, peers, f>>
+VARIABLES members, peers, f,
+          last        \* the last membership change and the key's replica list before it (history, for OnlyGainOrLose)
+dvars == <<ring, kpos, rf, members, peers, f, last>>
 
 RingOf(M) == {<<f[s], s[1]>> : s \in {t \in Slots : t[1] \in M}}
 Lists == Replicas(ring, kpos, rf)
@@ -34,23 +35,26 @@ DInit == /\ f \in {g \in [Slots -> {2 * i : i \in 1..Cardinality(Slots)}] : \A a
          /\ ring = RingOf(members)
          /\ peers = [n \in Nodes |-> IF n \in members THEN members \ {n} ELSE {}]
          /\ kpos \in {2 * i - 1 : i \in 1..(Cardinality(Slots) + 1)} /\ rf \in 1..(Cardinality(Nodes) + 1)
+         /\ last = [op |-> "none", x |-> 0, lists |-> <<>>]
 
 JoinRing(x) == /\ x \notin members
                /\ members' = members \cup {x}
                /\ ring' = RingOf(members')
                /\ peers' = [peers EXCEPT ![x] = members]
+               /\ last' = [op |-> "join", x |-> x, lists |-> Lists]
                /\ UNCHANGED <<kpos, rf, f>>
 LearnPeer(n, x) == /\ n \in members /\ x \in members /\ x # n /\ x \notin peers[n]
                    /\ peers' = [peers EXCEPT ![n] = @ \cup {x}]
-                   /\ UNCHANGED <<ring, kpos, rf, members, f>>
+                   /\ UNCHANGED <<ring, kpos, rf, members, f, last>>
 LeaveRing(x) == /\ x \in members /\ Cardinality(members) > 1
                 /\ members' = members \ {x}
                 /\ ring' = RingOf(members')
                 /\ peers' = [peers EXCEPT ![x] = {}]
+                /\ last' = [op |-> "leave", x |-> x, lists |-> Lists]
                 /\ UNCHANGED <<kpos, rf, f>>
 ForgetPeer(n, x) == /\ n \in members /\ x \notin members /\ x \in peers[n]
                     /\ peers' = [peers EXCEPT ![n] = @ \ {x}]
-                    /\ UNCHANGED <<ring, kpos, rf, members, f>>
+                    /\ UNCHANGED <<ring, kpos, rf, members, f, last>>
 DNext == \/ \E x \in Nodes : JoinRing(x) \/ LeaveRing(x)
          \/ \E n, x \in Nodes : LearnPeer(n, x) \/ ForgetPeer(n, x)
 DSpec == DInit /\ [][DNext]_dvars
@@ -65,13 +69,13 @@ CoverageSettled   == Settled => \A n \in members : RoutedDyn(n) = Targets(ring, 
 NobodyElse        == \A n \in members : RoutedDyn(n) \subseteq (RangeS(Lists) \ {n})       \* also with stale peer tables
 (* a stale table can only starve, never misdirect; starvation ends when the tables settle (CoverageSettled) *)
 
-(* placement moves only for keys that gain or lose the node (action property over every join and leave) *)
+(* placement moves only for keys that gain or lose the node: checked on the state after every join and leave *)
+(* (`last' holds the list before the change; LearnPeer / ForgetPeer do not touch the ring)                   *)
 OnlyGainOrLose ==
-  [][ /\ \A x \in Nodes : (x \notin members /\ members' = members \cup {x}) =>
-            /\ (x \notin RangeS(Lists') => Lists' = Lists)
-            /\ Without(Lists', x) = SubSeq(Lists, 1, Len(Without(Lists', x)))
-      /\ \A x \in Nodes : (x \in members /\ members' = members \ {x}) =>
-            /\ (x \notin RangeS(Lists) => Lists' = Lists)
-            /\ Without(Lists, x) = SubSeq(Lists', 1, Len(Without(Lists, x)))
-    ]_dvars
+  /\ last.op = "join" =>
+        /\ (last.x \notin RangeS(Lists) => Lists = last.lists)
+        /\ Without(Lists, last.x) = SubSeq(last.lists, 1, Len(Without(Lists, last.x)))
+  /\ last.op = "leave" =>
+        /\ (last.x \notin RangeS(last.lists) => Lists = last.lists)
+        /\ Without(last.lists, last.x) = SubSeq(Lists, 1, Len(Without(last.lists, last.x)))
 =============================================================================
